@@ -97,7 +97,7 @@ func (p *pushProp) Gen(r *Rand, tier string, idx int) any {
 	if r.Chance(0.4) && pp.Target != "readall" && pp.Target != "verifyreader" && pp.Target != "proxy" {
 		n = r.Range(2, 4)
 	}
-	descs := []string{"ok", "ok", "ok", "wrong-digest", "short", "short-prefix", "long", "zero", "zero-empty", "negative", "negative-empty", "malformed", "nocolon", "unsupported"}
+	descs := []string{"ok", "ok", "ok", "manifest-mt", "wrong-digest", "short", "short-prefix", "long", "zero", "zero-empty", "negative", "negative-empty", "malformed", "nocolon", "unsupported"}
 	for i := 0; i < n; i++ {
 		ps := PusherSpec{ForDigestOf: -1}
 		switch r.Intn(6) {
@@ -176,7 +176,7 @@ func (p *pushProp) Gen(r *Rand, tier string, idx int) any {
 		pp.SameName = true
 		if len(pp.Pushers) == 1 {
 			// a failing long push, then a valid shorter one
-			bad := PusherSpec{Content: "previous-longer-content-", Repeat: r.Range(2, 60), Desc: pick(r, []string{"wrong-digest", "ok"}), ForDigestOf: -1, Reader: ReaderSpec{FailAt: -1, Truncate: -1}}
+			bad := PusherSpec{Content: "previous-longer-content-", Repeat: r.Range(2, 60), Desc: pick(r, []string{"wrong-digest", "ok", "manifest-mt"}), ForDigestOf: -1, Reader: ReaderSpec{FailAt: -1, Truncate: -1}}
 			if bad.Desc == "ok" {
 				bad.Reader.FailAt = len(bad.Content)*bad.Repeat - r.Range(1, 5)
 			}
@@ -344,6 +344,10 @@ func descriptorFor(pp *PushParams, i int) ocispec.Descriptor {
 		kind = base.Desc
 	}
 	switch kind {
+	case "manifest-mt":
+		// digest and size are right; the media type says manifest and the bytes are no JSON: a store
+		// that reads manifests may refuse the push (after it has stored the bytes, which match)
+		d.MediaType = ocispec.MediaTypeImageManifest
 	case "wrong-digest":
 		d.Digest = digest.FromBytes(append([]byte("other"), full...))
 	case "short":
@@ -376,6 +380,14 @@ func descriptorFor(pp *PushParams, i int) ocispec.Descriptor {
 		d.Digest = digest.Digest("sha1:" + strings.Repeat("a", 40))
 	}
 	return d
+}
+
+func descKindOf(pp *PushParams, i int) string {
+	ps := &pp.Pushers[i]
+	if ps.ForDigestOf >= 0 && ps.ForDigestOf < len(pp.Pushers) {
+		return pp.Pushers[ps.ForDigestOf].Desc
+	}
+	return ps.Desc
 }
 
 type pushJudgement struct {
@@ -732,9 +744,22 @@ func (p *pushProp) run(rc *RunCtx, pp *PushParams, info *RunInfo) *Verdict {
 			// the named bytes are a prefix of the archive (or nothing): they match their
 			// descriptor but cannot be unpacked, so the store may refuse them
 			info.Probes["unpack_refused_incomplete_archive"]++
+		} else if errs[i] != nil && j.exact && descKindOf(pp, i) == "manifest-mt" {
+			info.Probes["unparseable_manifest_refused"]++
 		} else if errs[i] != nil && j.exact {
 			// refused although exact: fine only if somebody else stored the same descriptor
 			other := false
+			for k := range pp.Pushers {
+				if k == i || descKindOf(pp, k) != "manifest-mt" {
+					continue
+				}
+				if pp.SameName && (k < i || pp.SameNameConcurrent) && errors.Is(errs[i], file.ErrDuplicateName) {
+					other = true // the refused manifest may have kept the name
+				}
+				if descs[k].Digest == d.Digest && errors.Is(errs[i], errdef.ErrAlreadyExists) {
+					other = true // ... and its bytes, which are these bytes
+				}
+			}
 			for k := range pp.Pushers {
 				if k != i && sameContent(descs[k], d) && (pp.Target != "file-named") {
 					other = true
